@@ -112,3 +112,22 @@ package fastforward
 //@   ensures len(args) == 0 ==> result_1 == nil
 //@   loop 0:
 //@     invariant f != nil && (us.ref == 0 || fresh(us.ref))
+
+//@ func newWrapper
+//@   modifies *
+//@   ensures result != nil && fresh(result)
+
+// NewForward (C18): every configured upstream is created with a TLS configuration object of its
+// own — allocated for this upstream, never shared with another upstream, whose server name or
+// verification settings would otherwise leak into this one's handshakes — carrying this upstream's
+// own verification setting.
+//@ func NewForward [C18]
+//@   wraparound
+//@   requires args != nil
+//@   modifies *
+//@   ensures (result_0 != nil) != (result_1 != nil)
+//@   ensures result_1 == nil ==> it0 == len(args.Upstreams)
+//@   loop 0:
+//@     invariant f != nil && fresh(f) && f.args != nil && f.logger != nil && args != nil && 0 <= it0
+//@     each iter_calls(NewUpstream) == 1 && iter_ret(NewUpstream, 0, 1) == nil
+//@     each iter_arg(NewUpstream, 0, 1).TLSConfig != nil && !athead(allocated(iter_arg(NewUpstream, 0, 1).TLSConfig))
